@@ -194,6 +194,7 @@ partial def decPred (j : Json) : E (Pred α) := do
       let steps ← decSteps p
       return fun n =>
         let (evs, r) := im.first steps n
+        let kind := if kind == "mt" then "m" else if kind == "vt" then "v" else kind
         match r, kind with
         | .ok (some _), "m" => { evs := evs, res := .val (.bool true) }
         | .ok none, "m" => { evs := evs, res := .val (.bool false) }
